@@ -252,6 +252,7 @@ type genOpts struct {
 	stopIf      bool
 	waitFor     bool
 	evalFail    bool // expressions that can fail at run time (absent optional input, failing conversion, division by zero)
+	closureMs   int  // > 0: every step gets this closure_wait_timeout (keeps cancelled runs short)
 }
 
 func stepName(i int) string { return fmt.Sprintf("s%d", i) }
@@ -348,6 +349,9 @@ func genWorkflow(r *rng, o genOpts) *AWf {
 		}
 		if o.stopIf && s.PlugStep == "op" && i > 0 && r.chance(1, 4) {
 			s.Fields["stop_if"] = expr(fmt.Sprintf("$.steps.%s.outputs", stepName(r.intn(i))))
+		}
+		if o.closureMs > 0 {
+			s.Fields["closure_wait_timeout"] = lit(fmt.Sprintf("%d", o.closureMs))
 		}
 		w.Steps = append(w.Steps, s)
 	}
